@@ -93,6 +93,16 @@ def gen_inputs(ctx):
             s = "/".join(["m"] + toks)
             parse.append((s, ("deep-fault", n, f)))
             bypath.append((s, ("deep-fault", n, f)))
+    # one fault at EVERY position of deep paths (the levels where an implementation that works in groups of five
+    # changes group are positions 5, 10): empty token, junk, negative, oversized, oversized hardened
+    for n in ((6, 7, 10, 11, 12) if q else range(6, 13)):
+        for pos in range(n):
+            for f in (("",) if q and pos not in (4, 5, 9, 10) else ("", "x", "-1", "4294967296", "2147483648'")):
+                toks = [str((7 * j + 1) % 50) + ("'" if j % 3 == 0 else "") for j in range(n)]
+                toks[pos] = f
+                s = "/".join(["m"] + toks)
+                parse.append((s, ("deep-fault-at", n, pos, f)))
+                bypath.append((s, ("deep-fault-at", n, pos, f)))
     # --- random index lists over the full 32-bit range and random faulty numerals
     for _ in range(300 if q else 8000):
         n = rng.randrange(0, 6)
